@@ -37,12 +37,12 @@ theorem sortByPrio_perm (l : List Shard) : (sortByPrio l).Perm l := by
 theorem merge_preserves (shards : List Shard) (hne : shards ≠ []) (hrep : ∀ sh ∈ shards, sh.repos ≠ [])
     (hwf : ∀ sh ∈ shards, wfB sh = true) :
     ∃ out, merge shards = some out ∧ flat out = (sortByPrio shards).flatMap flat ∧ outShardOk out = true ∧
-      out.repos = (sortByPrio shards).flatMap (fun sh => started sh sh.docs none) := by
+      out.repos = (sortByPrio shards).flatMap (fun sh => started sh sh.docs none) ∧ WF out := by
   have hwf' : ∀ sh ∈ sortByPrio shards, WF sh :=
     fun sh hs => wfB_sound sh (hwf sh ((sortByPrio_perm shards).mem_iff.1 hs))
-  obtain ⟨b', hm, hbi, hne', hfl, hrepos⟩ := mergeLoop_spec (sortByPrio shards) ⟨[], []⟩ hwf' BI_empty
-    (by intro g hg; cases hg)
-  refine ⟨b'.flatten, ?_, ?_, outShardOk_flatten b' hbi hne', ?_⟩
+  obtain ⟨b', hm, hbi, hne', hoki, hfl, hrepos⟩ := mergeLoop_spec (sortByPrio shards) ⟨[], []⟩ hwf' BI_empty
+    (by intro g hg; cases hg) (by intro g hg; cases hg)
+  refine ⟨b'.flatten, ?_, ?_, outShardOk_flatten b' hbi hne', ?_, WF_flatten b' hbi hoki⟩
   · unfold merge
     have h1 : shards.isEmpty = false := by cases shards <;> simp_all
     have h2 : shards.any (·.repos.isEmpty) = false := by
@@ -60,14 +60,14 @@ theorem merge_preserves (shards : List Shard) (hne : shards ≠ []) (hrep : ∀ 
 theorem merge_preserves_perm (shards : List Shard) (hne : shards ≠ []) (hrep : ∀ sh ∈ shards, sh.repos ≠ [])
     (hwf : ∀ sh ∈ shards, wfB sh = true) :
     ∃ out, merge shards = some out ∧ (flat out).Perm (shards.flatMap flat) ∧ outShardOk out = true := by
-  obtain ⟨out, h1, h2, h3, _⟩ := merge_preserves shards hne hrep hwf
+  obtain ⟨out, h1, h2, h3, _, _⟩ := merge_preserves shards hne hrep hwf
   exact ⟨out, h1, h2 ▸ (sortByPrio_perm shards).flatMap_right flat, h3⟩
 
 /-- **C16, tombstoned repositories are dropped**: nothing of a tombstoned repository reaches the compound shard -/
 theorem merge_drops_tombstoned (shards : List Shard) (out : Shard) (hne : shards ≠ [])
     (hrep : ∀ sh ∈ shards, sh.repos ≠ []) (hwf : ∀ sh ∈ shards, wfB sh = true) (hm : merge shards = some out) :
     (∀ r ∈ out.repos, r.tomb = false) ∧ (∀ p ∈ flat out, p.1.tomb = false) := by
-  obtain ⟨out', h1, _, h3, _⟩ := merge_preserves shards hne hrep hwf
+  obtain ⟨out', h1, _, h3, _, _⟩ := merge_preserves shards hne hrep hwf
   rw [hm] at h1; cases h1
   unfold outShardOk at h3
   simp only [Bool.and_eq_true, List.all_eq_true, Bool.not_eq_true'] at h3
@@ -82,12 +82,11 @@ theorem merge_drops_tombstoned (shards : List Shard) (out : Shard) (hne : shards
     · cases hd; simp_all
   · cases hd
 
-/-- **C16, explode**: a well-formed compound shard explodes into shards that hold one repository each, are grouped and
+/-- **C16, explode** (for any shard satisfying the hypotheses `WF`, in particular every output of merge): a well-formed compound shard explodes into shards that hold one repository each, are grouped and
     without tombstones, and together show exactly what the compound shard showed, in order -/
-theorem explode_preserves (sh : Shard) (hwf : wfB sh = true) :
+theorem explode_preserves_wf (sh : Shard) (w : WF sh) :
     ∃ outs, explode sh = some outs ∧ outs.flatMap flat = flat sh ∧
       ∀ o ∈ outs, outShardOk o = true ∧ o.repos.length = 1 := by
-  have w := wfB_sound sh hwf
   obtain ⟨outs, he, hfl, hgood⟩ := explodeLoop_spec sh sh.docs none none [] w.docs w.mono
     (by intro l hl; cases hl) (Or.inl ⟨rfl, rfl⟩)
   refine ⟨outs, he, ?_, ?_⟩
@@ -96,6 +95,22 @@ theorem explode_preserves (sh : Shard) (hwf : wfB sh = true) :
     rcases hgood.1 o ho with h | h
     · cases h
     · exact h
+
+theorem explode_preserves (sh : Shard) (hwf : wfB sh = true) :
+    ∃ outs, explode sh = some outs ∧ outs.flatMap flat = flat sh ∧
+      ∀ o ∈ outs, outShardOk o = true ∧ o.repos.length = 1 :=
+  explode_preserves_wf sh (wfB_sound sh hwf)
+
+/-- **C16, explode ∘ merge is the identity on content** (up to the order of the inputs): merging well-formed shards and
+    exploding the result yields one shard per live repository with documents, together showing exactly the inputs'
+    content -/
+theorem explode_merge_id (shards : List Shard) (hne : shards ≠ []) (hrep : ∀ sh ∈ shards, sh.repos ≠ [])
+    (hwf : ∀ sh ∈ shards, wfB sh = true) :
+    ∃ out outs, merge shards = some out ∧ explode out = some outs ∧
+      (outs.flatMap flat).Perm (shards.flatMap flat) ∧ ∀ o ∈ outs, outShardOk o = true ∧ o.repos.length = 1 := by
+  obtain ⟨out, h1, h2, _, _, hw⟩ := merge_preserves shards hne hrep hwf
+  obtain ⟨outs, e1, e2, e3⟩ := explode_preserves_wf out hw
+  exact ⟨out, outs, h1, e1, by rw [e2, h2]; exact (sortByPrio_perm shards).flatMap_right flat, e3⟩
 
 /-- explode drops tombstoned repositories -/
 theorem explode_drops_tombstoned (sh : Shard) (outs : List Shard) (hwf : wfB sh = true) (he : explode sh = some outs) :
@@ -133,7 +148,7 @@ theorem liveRepos_of_ok (o : Shard) (h : outShardOk o = true) : liveRepos o = o.
 theorem C16_checkMerge (shards : List Shard) (hne : shards ≠ []) (hrep : ∀ sh ∈ shards, sh.repos ≠ [])
     (hwf : ∀ sh ∈ shards, wfB sh = true) :
     ∃ out, merge shards = some out ∧ checkMerge shards out = none := by
-  obtain ⟨out, h1, h2, h3, h4⟩ := merge_preserves shards hne hrep hwf
+  obtain ⟨out, h1, h2, h3, h4, _⟩ := merge_preserves shards hne hrep hwf
   refine ⟨out, h1, ?_⟩
   have hperm := sortByPrio_perm shards
   have hrepos : (liveRepos out).Perm (shards.flatMap liveRepos) := by
